@@ -278,7 +278,8 @@ M("C15", "copy-writes-self", SV, "        if frame and frame != self.frame:\n   
 M("C16", "phi-entry", CW, "[6 * n * (cs - 1), 0, 0, -2 * sn, 4 * cs - 3, 0],", "[6 * n * (cs - 1), 0, 0, -2 * sn, 4 * cs - 4, 0],", "R16.1")
 M("C16", "psi-entry", CW, "[2 / n * (cs - 1), (4 * sn - 3 * nt) / n, 0],\n                [0, 0, sn / n],\n            ]\n        )\n\n        if self.frame", "[2 / n * (cs - 1), (4 * sn - 3 * nt) / n ** 2, 0],\n                [0, 0, sn / n],\n            ]\n        )\n\n        if self.frame", "R16.1")
 M("C16", "permutation", CW, "    QSW2TNW = np.array([[0, 1, 0], [-1, 0, 0], [0, 0, 1]])", "    QSW2TNW = np.array([[0, 1, 0], [1, 0, 0], [0, 0, 1]])", "R16.2")
-M("C16", "window-onesided", CW, "if isinstance(man, ImpulsiveMan) and self.orbit.date <= man.date <= date:", "if isinstance(man, ImpulsiveMan) and man.date <= date:", "R16.3")
+M("C16", "window-onesided", CW, "if isinstance(man, ImpulsiveMan) and self.orbit.date < man.date <= date:", "if isinstance(man, ImpulsiveMan) and man.date <= date:", "R16.3")
+M("C16", "window-closed-at-epoch", CW, "if isinstance(man, ImpulsiveMan) and self.orbit.date < man.date <= date:", "if isinstance(man, ImpulsiveMan) and self.orbit.date <= man.date <= date:", "R16.3")
 M("C16", "impulse-on-position", CW, "                orb[3:] += man.dv(orb)", "                orb[:3] += man.dv(orb)", "R16.3")
 M("C16", "mean-motion", CW, "            self._n = np.sqrt(self.frame.center.body.µ / self.sma ** 3)", "            self._n = np.sqrt(self.frame.center.body.µ / self.sma ** 2)", "R16.1")
 L("C16", "refactor-entry", CW, "[4 - 3 * cs, 0, 0, sn / n, 2 / n * (1 - cs), 0],", "[4 - cs * 3, 0, 0, sn / n, (2 - 2 * cs) / n, 0],")
